@@ -276,6 +276,17 @@ def run(ctx: Context) -> None:
     wr = [c for c in calls_in(ep) if callee(ctx, ep, c) == 'emsarray.utils.to_netcdf_with_fixes']
     ok = (len(wr) == 1 and ed and flow.resolve(wr[0].args[0]) is ed[0] and norm_text(wr[0].args[1]) == 'options.output_path')
     ctx.check('R20.5', ok, "extract-points: the extracted dataset itself is written to the output path", ep, wr[0] if wr else ep.node)
+    for hq in (f"{CMDS}.clip.Command.handle", f"{CMDS}.extract_points.Command.handle", f"{CMDS}.export_geometry.Command.handle"):
+        hf = ctx.func(hq)
+        opens = [c for c in calls_in(hf) if (callee(ctx, hf, c) or '').endswith('open_dataset')]
+        ok = len(opens) == 1 and [norm_text(a) for a in opens[0].args] == ['options.input_path'] and not opens[0].keywords
+        ctx.check('R20.5', ok, "the input is opened exactly as the library opens it: emsarray.open_dataset(input path) with no decoding options", hf,
+                  opens[0] if opens else hf.node, construct=f"{hf.short}: {norm_text(opens[0]) if opens else 'no open_dataset call'}")
+    csvs = [c for c in calls_in(ep) if (callee(ctx, ep, c) or '').endswith('read_csv')]
+    ok = len(csvs) == 1 and [norm_text(a) for a in csvs[0].args] == ['options.points'] and not csvs[0].keywords and \
+        all(ctx.flow(ep).resolve(c.args[1]) is csvs[0] for c in ed)
+    ctx.check('R20.5', ok, "extract-points: the table handed to the library is the CSV as read (no rows dropped, re-indexed or filtered)", ep,
+              csvs[0] if csvs else ep.node, construct=f"dataframe = {norm_text(ctx.flow(ep).resolve(ed[0].args[1])) if ed else '?'}")
     ex = ctx.func(f"{CMDS}.export_geometry.Command.handle")
     flow = ctx.flow(ex)
     wcalls = [c for c in calls_in(ex) if isinstance(c.func, ast.Name) and c.func.id == 'writer']
@@ -325,6 +336,9 @@ VARIANTS = [
     V('C20', 'clip-buffered-geometry', _CL, "dataset.ems.clip(options.clip_geometry, work_dir=work_path)", "dataset.ems.clip(options.clip_geometry.buffer(0.01), work_dir=work_path)", 'R20.5'),
     V('C20', 'policy-overridden', _EP, "                missing_points=options.missing_points)", "                missing_points='drop' if options.missing_points == 'fill' else options.missing_points)", 'R20.5'),
     V('C20', 'miss-not-an-error', _EP, "            raise CommandException(\n                f\"Error extracting points: the points in the following rows \"\n                f\"did not intersect the dataset geometry:\\n\"\n                f\"{rows.head()}\\n\"\n                f\"(total rows: {len(rows)})\")", "            logger.warning('%d points missed', len(rows))\n            return", 'R20.5'),
+    V('C20', 'export-opens-undecoded', _EG, "        dataset = emsarray.open_dataset(options.input_path)", "        dataset = emsarray.open_dataset(options.input_path, mask_and_scale=False, decode_times=False)", 'R20.5'),
+    V('C20', 'csv-rows-dropped', _EP, "        dataframe = pandas.read_csv(options.points)", "        dataframe = pandas.read_csv(options.points).dropna(how='all')", 'R20.5'),
+    V('C20', 'whitespace-stripped', _CU, "    bounds_match = bounds_re.fullmatch(argument_string)", "    bounds_match = bounds_re.fullmatch(''.join(argument_string.split()))", 'R20.1'),
     # benign
     V('C20', 'benign-anchored-match', _CU, "bounds_re = re.compile(r'\\s*,\\s*'.join([DECIMAL] * 4))\n", "bounds_re = re.compile(r'\\s*,\\s*'.join([DECIMAL] * 4) + r'\\Z')\n", None),
 ]
